@@ -87,6 +87,16 @@ CLASSES = ["printable", "printable", "printable", "headerish", "blankmid", "crlf
            "nonprintable"]
 
 
+def link_extras(rng, k):
+    """lines a .names / .Links / .cap block may carry besides Name/Path/Abstract"""
+    pool = [["Admin=Jo Bloggs <jo%d@example.org>" % k], ["Admin="], ["Admin=  +1 555 0100  "], ["URL=http://example.org/%d" % k],
+            ["TTL=%d" % (60 * k)], ["Numb=%d" % (k % 7 - 2)], ["Admin=Second Admin <b@example.org>", "TTL=5"]]
+    out = list(pool[k % len(pool)])
+    for _ in range(rng.randrange(0, 3)):
+        out += [x for x in rng.choice(pool) if x.split("=")[0] not in [y.split("=")[0] for y in out]]
+    return out
+
+
 def build_world(rng, variant, exts=None):
     exts = exts or EXTS
     """tree with 16 files and 16 directories carrying every subset of the four sidecars"""
@@ -127,8 +137,17 @@ def build_world(rng, variant, exts=None):
                 if how in (2, 4):
                     dec["abstract"] = ["about %s%02d" % (kind_, i), "second " + (printable_line(rng, 10).strip() or "line")]
                 block = "Name=%s\n" % dec["name"]
+                # every other documented / legacy field of a UMN link block; none of them may add, drop or
+                # change a Gopher+ block of the item
+                extra = link_extras(rng, i + (0 if kind_ == "f" else 1) + variant)
+                rng.shuffle(extra)
+                cut = rng.randrange(len(extra) + 1)
+                block += "".join(x + "\n" for x in extra[:cut])
                 if "abstract" in dec:
                     block += "Abstract=%s\\\n%s\n" % tuple(dec["abstract"])
+                block += "".join(x + "\n" for x in extra[cut:])
+                # a comment or an unknown key ends the block: only as its last line
+                block += rng.choice(["", "", "#end of block\n", "Frob=unknown key\n"])
                 parent_, base_ = path_.rsplit("/", 1)
                 if how in (1, 2):
                     tree.append({"path": parent_ + "/.cap/" + base_, "data": block.encode("utf-8").decode("latin-1"), "mtime": t0})
@@ -147,11 +166,13 @@ def build_world(rng, variant, exts=None):
     tree.append({"path": "links", "kind": "dir", "mtime": t0 + 52})
     tree.append({"path": "links/.Links", "mtime": t0, "data": (
         "Name=Port zero\nType=1\nPath=/x\nHost=other.example\nPort=0\n\n"
-        "Name=Plus host\nType=0\nPath=/elsewhere/doc\nHost=+\nPort=+\n\n"
-        "Name=\nType=0\nPath=/emptyname\nHost=third.example\nPort=7070\n\n"
-        "Name=Root of another server\nType=1\nPath=\nHost=fourth.example\nPort=70\n\n"
+        "Name=Plus host\nType=0\nPath=/elsewhere/doc\nHost=+\nPort=+\nAdmin=Remote Admin <r@other.example>\n\n"
+        "Name=\nType=0\nPath=/emptyname\nHost=third.example\nPort=7070\nTTL=600\nURL=gopher://third.example:7070/0/emptyname\n\n"
+        "Name=Root of another server\nType=1\nPath=\nHost=fourth.example\nPort=70\nNumb=3\nAdmin=\n\n"
         "Name=A URL\nType=h\nPath=URL:http://example.org/\n\n"
-        "Name=With abstract\nType=0\nPath=/y\nHost=fifth.example\nPort=70\nAbstract=remote abstract\n")})
+        "Name=With abstract\nType=0\nPath=/y\nHost=fifth.example\nPort=70\nAdmin=Fifth <f@fifth.example>\n"
+        "Abstract=remote abstract\nTTL=1\n\n"
+        "Name=Local with admin\nType=0\nPath=./local.txt\nAdmin=Local Admin <l@gopher.example>\nNumb=1\n")})
     tree.append({"path": "links/local.txt", "data": "", "mtime": t0})
     tree.append({"path": "mail.mbox", "data": MBOX, "mtime": t0})
     for ext, _ in EXTS[:2]:
@@ -487,6 +508,12 @@ def run(tier):
                         break
                     fields = g[0][1].split("\t")
                     isel = fields[1] if len(fields) > 1 else None
+                    if isel not in items:
+                        # items known only from a link file, items of other servers, virtual items
+                        if "ADMIN" not in [b_[0] for b_ in g]:
+                            report(wi, form, sel, data, tls, out, "item information has no +ADMIN block", "item-admin", item=isel)
+                        else:
+                            record_shape(report, (wi, form, sel, data, tls, out), g, isel)
                     if isel in items:
                         check_item(chk, report, (wi, form, sel, data, tls, out), g, isel, items[isel], None, guess, default_mime,
                                    listing=True)
@@ -924,6 +951,26 @@ def run(tier):
     return chk.finish("proof")
 
 
+def record_shape(report, ctx, blocks, isel, on_disk=False):
+    """what holds for the record of ANY item, wherever its metadata comes from (the file system, a sidecar, a
+    .names/.Links/.cap block): no block name twice, and the one +ADMIN block is the server's (Admin: line, and the
+    Mod-Date line of an item that lives on disk)"""
+    wi, form, sel, data, tls, out = ctx
+    names = [b[0] for b in blocks]
+    dup = sorted({n for n in names if names.count(n) > 1})
+    if dup:
+        report(wi, form, sel, data, tls, out, "a block name occurs more than once in the record of one item", "item-blocks",
+               item=isel, blocks=names, duplicated=dup)
+        return False
+    admin = blocks[names.index("ADMIN")][2]
+    want = ["Admin: " + ADMIN] + (["Mod-Date: <T>"] if on_disk or admin[1:2] == ["Mod-Date: <T>"] else [])
+    if admin != want:
+        report(wi, form, sel, data, tls, out, "+ADMIN block is not the server's Admin: line (and the item's Mod-Date line)",
+               "item-admin", item=isel, admin_lines=admin[:6], expected=want)
+        return False
+    return True
+
+
 def check_item(chk, report, ctx, blocks, isel, it, plain, guess, default_mime, exact_name=True, listing=False):
     """the property for one item: INFO = menu line, ADMIN, VIEWS(type,size), one block per sidecar"""
     wi, form, sel, data, tls, out = ctx
@@ -933,6 +980,8 @@ def check_item(chk, report, ctx, blocks, isel, it, plain, guess, default_mime, e
         return
     if "ADMIN" not in names:
         report(wi, form, sel, data, tls, out, "item information has no +ADMIN block", "item-admin", item=isel)
+    elif not record_shape(report, ctx, blocks, isel, on_disk=it is not None):
+        return
     info = blocks[0][1]
     fields = info.split("\t")
     if len(fields) < 4 or fields[1] != isel:
